@@ -32,6 +32,7 @@ func ruleC15(prog *Program, rep *Report) {
 	ruleCacheRead(prog, rep)
 	ruleClassEndpoints(prog, rep, "alt", "oj", "sen") // the exported-field test on the first letter of a field name
 	ruleTightAppendTwins(prog, rep, "oj", "sen")
+	ruleFullRange(prog, rep, 6, "oj", "sen", "alt", "pretty")
 	rulePkgTwins(prog, rep, "oj", "sen", 40) // sen's writer, field plans and accessors are copies of oj's
 }
 
